@@ -218,7 +218,7 @@ func zzPublish(c *ResourceCollection, id resource.ID, tag int64) {
 // while more events are published; it is errored only if it lags by more than
 // the capacity, and it never stops silently.
 func ZZ_ResumeIsSuffix() {
-	cfg, rounds := zzPickCfgWatch(9)
+	cfg, rounds := zzPickCfgWatch(7)
 	W := zzSymW(cfg)
 	c := zzCollectionAt(cfg, W, func(int64) resource.ID { return "x" })
 	P := verif.Int64("P")
